@@ -71,6 +71,11 @@ CLAIMS = {
         "Exploration: 26 amplitude models x 60 (quick) / 1500 (thorough) generated parameter sets x modes x q; predicates are the statement's own clauses.",
         "Domain as quantified: random()/default parameter sets, dispersity widths <= 0.2; spherical = category shape:sphere without orientation parameters.",
         "DESIGN.md section 3 C14"),
+    "C19": (
+        "Hypothesis-generated spin-echo grids / wavelengths / acceptances with Gaussians placed inside the transform's own q range; oracle = analytic Hankel pair, adaptive quadrature for the acceptance-limited J0 term, linearity and grid predicates, Gxi end-to-end scale/background relation",
+        "Exploration: ~640 (quick) / ~6.4k (thorough) generated transforms incl. single-point sets, per-point wavelengths and restricted acceptance; one defect repaired (acceptance units).",
+        "Accuracy 1e-3 relative (+2e-4 G0) per the documented log step; only the J0 term is acceptance-limited; grids that cannot hold a Gaussian with margins are checked for linearity/grid predicates only.",
+        "DESIGN.md section 3 C19"),
     "C20": (
         "exhaustive iteration over both conversion tables x Hypothesis-generated parameter subsets/attributes/versions, oracle = independent transcription of the table semantics (names exist, values carried, defaults)",
         "Exploration: every table entry (75) x 100 (quick) / 1500 (thorough) generated legacy parameter sets; outputs validated against the parameter table of the current model loaded from the working tree; six genuine defects were repaired (fixed entries are replayed as regressions), five are listed findings excluded by input-derived bucket.",
